@@ -2,7 +2,7 @@
    In the geometry-free model such maps act on the voxel list as a permutation combined with the
    insertion/removal of background voxels (0,0).  ASSD, the only geometry-dependent metric, is
    invariant under translations, flips, axis permutations and the enclosing box by Props/C07. *)
-From Pan Require Import Base.Common Model.MetricTable Model.Metrics Model.Matcher Model.Pipeline Proofs.Invariance Proofs.PipelineInvariance.
+From Pan Require Import Base.Common Model.MetricTable Model.Metrics Model.Matcher Model.Pipeline Proofs.C04Proofs Proofs.Invariance Proofs.PipelineInvariance Proofs.PaddingPipeline.
 From Coq Require Import Permutation.
 Open Scope Z_scope.
 
@@ -37,6 +37,13 @@ Proof. exact eval_phase_foreground. Qed.
 Theorem C10_matched_input_padding_invariant : forall x c a a', c_matcher c = 0 ->
   Permutation (strip a) (strip a') -> pipeline x c a = pipeline x c a'.
 Proof. exact pipeline_matched_foreground. Qed.
+(* END TO END for padding / translation / cropping of empty margins (matched input and unmatched input with the threshold
+   matcher, every metric, threshold, decision metric, handler): two label-map pairs with the same non-background voxels, up to
+   order, have the same result; [nonneg_arr]: labels are non-negative (fresh labels are numbered past the largest reference label) *)
+Theorem C10_pipeline_depends_on_foreground_only : forall x c a a', nonneg_arr a -> nonneg_arr a' ->
+  (c_matcher c = 0 \/ c_matcher c = 1 \/ c_matcher c = 2) ->
+  Permutation (strip a) (strip a') -> pipeline x c a = pipeline x c a'.
+Proof. exact pipeline_foreground_naive. Qed.
 (* and the matcher sees the identical candidate list *)
 Theorem C10_candidate_list_padding_invariant : forall x m a, cand_list x m (strip a) = cand_list x m a.
 Proof. exact cand_list_strip. Qed.
